@@ -238,6 +238,20 @@ CHECKS = {
          'unchanged, is_lmf() agrees with the header rule, and scan_lexicons() equals the lexicons of the full load in order.',
     note='Trusted: TLC, the mutation generator (line-based on the materialiser output), expat for well-formedness in general.',
     design='DESIGN.md section 4 C20'),
+ 'C16': dict(
+    engine='functional',
+    category='model_checking',
+    technique='TLA+ trace specification Trace_Functional (memo of the first result per call and epoch; total, resynchronising) with its abstract '
+              'model MC_Functional checked by TLC; a battery of every public read-only call recorded twice per process under several '
+              'PYTHONHASHSEED values and validated line by line by TLC',
+    text='The monitor says: within a database epoch every call key has one result; new processes and read-only calls change nothing. TLC '
+         'checks on the abstract model that the monitor raises no false alarm for a deterministic system and flags a seed-dependent call as soon '
+         'as two seeds ask it. For adversarial graph worlds (two LCS, diamonds, cycles), multi-lexicon query worlds and random documents the '
+         'battery (queries, navigation, relations, taxonomy, similarity, IC, searches, Morphy, validate, dump, export, describe) runs twice in '
+         'separate interpreters with different hash seeds; ~10^5 trace lines are consumed by TLC, which reports each call whose canonical '
+         'rendering (order of lists and mappings, float repr, file bytes) differs.',
+    note='Trusted: TLC, the canonical rendering and SHA-256 digests computed by the harness.',
+    design='DESIGN.md section 4 C16'),
 }
 
 REASON_TODO = 'check not built yet in this round (planned, see DESIGN.md section 8)'
@@ -283,6 +297,8 @@ def main():
              'kind_free_text': 'TLA+ model of Wordnet selection, navigation, relations and ILI expansion + TLC judge'},
             {'name': 'lmf', 'path': 'spec/WnLmf.tla', 'serves_properties': ['C01', 'C02', 'C03', 'C20'],
              'kind_free_text': 'TLA+ document model (semantic normal form tables), Project per version, acceptance rules + TLC judge'},
+            {'name': 'functional', 'path': 'spec/Trace_Functional.tla', 'serves_properties': ['C16'],
+             'kind_free_text': 'TLA+ trace specification with memo history variable, validated line by line by TLC'},
         ],
         'checks': checks,
         'not_applicable': [{'property_id': p['id'], 'reason': REASON_TODO}
